@@ -296,18 +296,20 @@ fn main() {
     //      results" includes: identical whatever the time of day and whatever the process's random keys.
     {
         let so = "/verif/target/c18/fakeenv.so";
-        let cc = Command::new("cc").args(["-shared", "-fPIC", "-O1", "-o", so, "/verif/probes/fakeenv/fakeenv.c"]).output();
+        let cc = Command::new("cc").args(["-shared", "-fPIC", "-O1", "-o", so, "/verif/probes/fakeenv/fakeenv.c", "-ldl"]).output();
         if !matches!(&cc, Ok(o) if o.status.success()) {
             machinery_failure("C18", "cannot build the clock / randomness shim (probes/fakeenv/fakeenv.c)");
         }
-        let jobs: Vec<(usize, &'static str, &'static str)> = tables.iter().flat_map(|(i, _)| [(*i, "3600", "1"), (*i, "86400", "2"), (*i, "31", "3")]).collect();
+        // (clock step, random seed, value of every environment variable asked for by name)
+        let jobs: Vec<(usize, &'static str, &'static str, &'static str)> = tables.iter().flat_map(|(i, _)| [(*i, "3600", "1", "18432"), (*i, "86400", "2", "1"), (*i, "31", "3", "65535")]).collect();
         let outs: Vec<(usize, &'static str, &'static str, std::io::Result<std::process::Output>)> = std::thread::scope(|sc| {
+            let jobs = &jobs;
             let hs: Vec<_> = jobs
                 .iter()
-                .map(|&(i, step, seed)| {
+                .map(|&(i, step, seed, envv)| {
                     sc.spawn(move || {
                         let target = format!("/verif/target/c18/digest-{}", CFGS[i].name);
-                        let o = Command::new(format!("{}/release/digest-probe", target)).env("LD_PRELOAD", so).env("FAKE_CLOCK_STEP_S", step).env("FAKE_RANDOM_SEED", seed).output();
+                        let o = Command::new(format!("{}/release/digest-probe", target)).env("LD_PRELOAD", so).env("FAKE_CLOCK_STEP_S", step).env("FAKE_RANDOM_SEED", seed).env("FAKE_ENV_VALUE", envv).output();
                         (i, step, seed, o)
                     })
                 })
@@ -341,7 +343,7 @@ fn main() {
                 if a != b {
                     sink.violation(
                         format!("shim {} {}", c.name, a.0),
-                        format!("{}: feature set '{}': results over {} corpus inputs change when the clock advances {} s per reading and OS randomness is seeded with {} ({} vs {}): they depend on ambient state, not only on the input", a.0, c.name, a.2, step, seed, a.1, b.1),
+                        format!("{}: feature set '{}': results over {} corpus inputs change when the clock advances {} s per reading, OS randomness is seeded with {} and every environment variable read by name has a value ({} vs {}): they depend on ambient state, not only on the input", a.0, c.name, a.2, step, seed, a.1, b.1),
                         replay.clone(),
                     );
                 }
@@ -388,7 +390,7 @@ fn main() {
     cov.insert("corpus_inputs_per_configuration".into(), json!(corpus_inputs));
     cov.insert("samples".into(), json!([{"configuration":"serialize-without-std","expected":"compile_error: features `serialize` cannot be enabled when using `no_std`"},{"configuration":"no-default-features","probe":"digest-probe over the catalogue corpus"}]));
     cov.insert("rule".into(), json!(
-        "all 4 feature sets {default, none, std+serialize, serialize-without-std} are built from /repo's working tree (the last must fail with the compile_error text); each buildable one is rebuilt with -F unsafe_code; src/ and build.rs are scanned for the `unsafe` token and the forbid attribute, and so is the macro-expanded crate of each buildable configuration (nightly -Zunpretty=expanded; only the marker impls / unreachable hints of core's built-in derives are accepted); a probe crate is built against each buildable configuration and prints a digest of (class, consumed, Debug text) per entry point over the catalogue corpus with single deviations (25 entry points, registries over all 65536 ids, 216 defragmenter histories): digests must be identical, also when the probe runs under an LD_PRELOAD shim that makes every clock reading jump ahead (31 s / 1 h / 1 day) and fixes OS randomness (3 runs per configuration); a second probe asserts Send + Sync for 77 public types. Non-trivial: every configuration / digest comparison"));
+        "all 4 feature sets {default, none, std+serialize, serialize-without-std} are built from /repo's working tree (the last must fail with the compile_error text); each buildable one is rebuilt with -F unsafe_code; src/ and build.rs are scanned for the `unsafe` token and the forbid attribute, and so is the macro-expanded crate of each buildable configuration (nightly -Zunpretty=expanded; only the marker impls / unreachable hints of core's built-in derives are accepted); a probe crate is built against each buildable configuration and prints a digest of (class, consumed, Debug text) per entry point over the catalogue corpus with single deviations (25 entry points, registries over all 65536 ids, 216 defragmenter histories): digests must be identical, also when the probe runs under an LD_PRELOAD shim that makes every clock reading jump ahead (31 s / 1 h / 1 day), fixes OS randomness and gives every environment variable that is read by name a value (3 runs per configuration); a second probe asserts Send + Sync for 77 public types. Non-trivial: every configuration / digest comparison"));
     let code = run.finish(&sink, cov, vec!["the corpus of the differential probe is the small-scope catalogue with single deviations, not every input".into()]);
     std::process::exit(code);
 }
